@@ -223,3 +223,212 @@ Proof.
   pose proof (Z.mod_pos_bound (pack c idx coeff) (2 ^ c) Hp).
   pose proof (Z.div_mod (pack c idx coeff) (2 ^ c)). nia.
 Qed.
+
+(* ================================================================== D. the binary search get_max *)
+Section GetMax.
+Variable pred : Z -> bool.
+(* pred is downward closed: once false, false above *)
+Hypothesis Hmono : forall w w', w <= w' -> pred w = false -> pred w' = false.
+
+Lemma get_max_loop_spec top0 : forall fuel top count,
+  0 <= count -> (Z.to_nat count < fuel)%nat -> pred (top - count) = true -> top <= top0 ->
+  (forall w, top < w <= top0 -> pred w = false) ->
+  let r := get_max_loop fuel pred top count in
+  top - count <= r <= top /\ pred r = true /\ forall w, r < w <= top0 -> pred w = false.
+Proof.
+  induction fuel as [|f IH]; intros top count Hc Hf Hlow Htop Habove; [lia|].
+  cbn [get_max_loop]. destruct (Z.ltb_spec 0 count) as [Hpos|Hz].
+  - rewrite Z.shiftr_div_pow2 by lia. change (2 ^ 1) with 2.
+    assert (Hs : 0 <= count / 2 < count) by (split; [apply Z.div_pos; lia|apply Z.div_lt; lia]).
+    destruct (pred (top - count / 2)) eqn:Em; cbn [negb].
+    + (* pred mid: keep top, count := step *)
+      destruct (IH top (count / 2)) as (A & B & C); try lia; try assumption.
+      cbv zeta. split; [lia|]. split; assumption.
+    + (* not pred mid: top := mid - 1 *)
+      destruct (IH (top - count / 2 - 1) (count - (count / 2 + 1))) as (A & B & C); try lia.
+      * replace (top - count / 2 - 1 - (count - (count / 2 + 1))) with (top - count) by lia. exact Hlow.
+      * intros w Hw. destruct (Z_le_gt_dec w top).
+        -- apply (Hmono (top - count / 2) w); [lia|exact Em].
+        -- apply Habove. lia.
+      * cbv zeta. split; [lia|]. split; assumption.
+  - assert (count = 0) by lia. subst count. cbv zeta. rewrite Z.sub_0_r in Hlow.
+    split; [lia|]. split; assumption.
+Qed.
+
+(* get_max returns the largest w of [bottom, top] satisfying pred *)
+Theorem get_max_spec top bottom : bottom <= top -> pred bottom = true ->
+  let r := get_max top bottom pred in
+  bottom <= r <= top /\ pred r = true /\ forall w, r < w <= top -> pred w = false.
+Proof.
+  intros Hbt Hb. unfold get_max. destruct (pred top) eqn:Et; cbn [negb]; cbv zeta.
+  - split; [lia|]. split; [exact Et|]. intros w Hw. lia.
+  - destruct (get_max_loop_spec top (S (Z.to_nat (top - bottom))) top (top - bottom)) as (A & B & C); try lia.
+    + replace (top - (top - bottom)) with bottom by lia. exact Hb.
+    + cbv zeta in A, B, C. split; [lia|]. split; assumption.
+Qed.
+End GetMax.
+
+(* ================================================================== E. binomial table and the combinatorial number system *)
+Lemma binom_0 i : binom i 0 = 1.
+Proof. destruct i; reflexivity. Qed.
+Lemma binom_nonneg i : forall j, 0 <= binom i j.
+Proof.
+  induction i as [|i IH]; intros [|j]; cbn [binom]; try lia.
+  pose proof (IH j). pose proof (IH (S j)). lia.
+Qed.
+Lemma binom_gt i : forall j, (i < j)%nat -> binom i j = 0.
+Proof.
+  induction i as [|i IH]; intros [|j] H; cbn [binom]; try lia.
+  rewrite (IH j) by lia. rewrite (IH (S j)) by lia. reflexivity.
+Qed.
+Lemma binom_1 i : binom i 1 = Z.of_nat i.
+Proof. induction i as [|i IH]; [reflexivity|]. cbn [binom]. rewrite binom_0. fold (binom i 1). rewrite IH. lia. Qed.
+Lemma binom_step i j : binom i j <= binom (S i) j.
+Proof. destruct j as [|j]; [rewrite !binom_0; lia|]. cbn [binom]. pose proof (binom_nonneg i j). lia. Qed.
+Lemma binom_mono i i' j : (i <= i')%nat -> binom i j <= binom i' j.
+Proof. induction 1 as [|m _ IH]; [lia|]. pose proof (binom_step m j). lia. Qed.
+
+(* the table filled by Pascal's rule holds the binomial coefficients *)
+Lemma zip_add_nth a : forall b j, length a = length b -> nth j (zip_add a b) 0 = nth j a 0 + nth j b 0.
+Proof.
+  induction a as [|x a IH]; intros [|y b] j H; cbn in H; try discriminate.
+  - destruct j; reflexivity.
+  - destruct j; cbn [zip_add nth]; [reflexivity|]. apply IH. lia.
+Qed.
+Lemma zip_add_length a : forall b, length a = length b -> length (zip_add a b) = length a.
+Proof. induction a as [|x a IH]; intros [|y b] H; cbn in *; try discriminate; [reflexivity|]. rewrite IH; lia. Qed.
+Lemma pascal_row_length i : length (pascal_row i) = S i.
+Proof.
+  induction i as [|i IH]; [reflexivity|]. cbn [pascal_row].
+  rewrite zip_add_length; cbn [length]; rewrite ?app_length; cbn [length]; lia.
+Qed.
+Lemma nth_app_zero r : forall k, nth k (r ++ [0]) 0 = nth k r 0.
+Proof. induction r as [|x r IH]; intros k; [destruct k as [|[|k]]; reflexivity|]. destruct k; cbn [app nth]; [reflexivity|apply IH]. Qed.
+Theorem binom_tab_eq i : forall j, binom_tab i j = binom i j.
+Proof.
+  unfold binom_tab. induction i as [|i IH]; intros j.
+  - destruct j as [|[|j]]; reflexivity.
+  - cbn [pascal_row]. rewrite zip_add_nth by (cbn [length]; rewrite app_length, pascal_row_length; cbn [length]; lia).
+    rewrite nth_app_zero. destruct j as [|j]; cbn [nth]; rewrite !IH.
+    + rewrite binom_0. reflexivity.
+    + reflexivity.
+Qed.
+
+Lemma cns_enc_binom v k : cns_enc v k = binom (Z.to_nat v) (Z.to_nat k).
+Proof. unfold cns_enc. apply binom_tab_eq. Qed.
+
+(* strictly increasing lists of integers >= lo *)
+Fixpoint increasing (lo : Z) (vs : list Z) : Prop :=
+  match vs with [] => True | v :: r => lo <= v /\ increasing (v + 1) r end.
+Lemma increasing_snoc l : forall lo x,
+  increasing lo (l ++ [x]) <-> increasing lo l /\ lo <= x /\ forall y, In y l -> y < x.
+Proof.
+  induction l as [|v r IH]; intros lo x; cbn [app increasing].
+  - split; [intros [H _]; repeat split; [exact H|intros y []]|intros (_ & H & _); split; [exact H|exact I]].
+  - rewrite IH. split.
+    + intros (A & B & C & D). repeat split; try assumption; try lia. intros y [<-|Hy]; [lia|apply D; exact Hy].
+    + intros ((A & B) & C & D). repeat split; try assumption.
+      * specialize (D v (or_introl eq_refl)). lia.
+      * intros y Hy. apply D. right. exact Hy.
+Qed.
+Lemma increasing_snoc_lb l : forall lo x, increasing lo (l ++ [x]) -> lo + Z.of_nat (length l) <= x.
+Proof.
+  induction l as [|v r IH]; intros lo x; cbn [app increasing length].
+  - lia.
+  - intros [A B]. specialize (IH _ _ B). lia.
+Qed.
+
+Lemma index_from_snoc e l : forall pos x,
+  simplex_index_from e pos (l ++ [x]) = simplex_index_from e pos l + enc e x (pos + Z.of_nat (length l)).
+Proof.
+  induction l as [|v r IH]; intros pos x; cbn [app simplex_index_from length].
+  - replace (pos + Z.of_nat 0) with pos by lia. lia.
+  - rewrite IH. replace (pos + 1 + Z.of_nat (length r)) with (pos + Z.of_nat (S (length r))) by lia. lia.
+Qed.
+Lemma cns_index_snoc l x :
+  simplex_index Cns (l ++ [x]) = simplex_index Cns l + binom (Z.to_nat x) (S (length l)).
+Proof.
+  unfold simplex_index. rewrite index_from_snoc. cbn [enc]. rewrite cns_enc_binom.
+  replace (Z.to_nat (1 + Z.of_nat (length l))) with (S (length l)) by lia. reflexivity.
+Qed.
+
+Lemma cns_bound l : forall x, increasing 0 (l ++ [x]) ->
+  0 <= simplex_index Cns (l ++ [x]) < binom (S (Z.to_nat x)) (S (length l)).
+Proof.
+  induction l as [|y l IH] using rev_ind; intros x H.
+  - cbn [app] in *. destruct H as [H _]. unfold simplex_index. cbn [simplex_index_from enc length].
+    rewrite cns_enc_binom. change (Z.to_nat 1) with 1%nat. rewrite !binom_1. lia.
+  - apply increasing_snoc in H. destruct H as (H1 & H2 & H3).
+    specialize (IH y H1). rewrite cns_index_snoc.
+    assert (Hy : y < x) by (apply H3; apply in_or_app; right; left; reflexivity).
+    assert (Hy0 : 0 <= y) by (pose proof (increasing_snoc_lb l 0 y H1); lia).
+    rewrite app_length. cbn [length]. rewrite Nat.add_1_r.
+    pose proof (binom_mono (S (Z.to_nat y)) (Z.to_nat x) (S (length l)) ltac:(lia)).
+    pose proof (binom_nonneg (Z.to_nat x) (S (S (length l)))).
+    change (binom (S (Z.to_nat x)) (S (S (length l))))
+      with (binom (Z.to_nat x) (S (length l)) + binom (Z.to_nat x) (S (S (length l)))).
+    lia.
+Qed.
+
+Lemma decode_loop_cns l : forall x acc top, increasing 0 (l ++ [x]) -> x <= top ->
+  decode_loop Cns (length (l ++ [x])) (simplex_index Cns (l ++ [x])) top acc = (l ++ [x]) ++ acc.
+Proof.
+  induction l as [|y l IH] using rev_ind; intros x acc top H Htop.
+  - cbn [app length decode_loop] in *. destruct H as [H _]. unfold simplex_index. cbn [simplex_index_from enc].
+    rewrite cns_enc_binom. change (Z.to_nat 1) with 1%nat. rewrite binom_1. f_equal. lia.
+  - pose proof H as Hall. apply increasing_snoc in H. destruct H as (H1 & H2 & H3).
+    assert (Hy : y < x) by (apply H3; apply in_or_app; right; left; reflexivity).
+    pose proof (increasing_snoc_lb _ 0 x Hall) as Hlb.
+    pose proof (cns_bound _ x Hall) as Hb. pose proof (cns_bound _ y H1) as Hb1.
+    rewrite app_length in Hlb, Hb. cbn [length] in Hlb, Hb. rewrite Nat.add_1_r in Hb.
+    set (idx := simplex_index Cns ((l ++ [y]) ++ [x])) in *.
+    assert (Hidx : idx = simplex_index Cns (l ++ [y]) + binom (Z.to_nat x) (S (S (length l)))).
+    { unfold idx. rewrite cns_index_snoc. rewrite app_length. cbn [length]. rewrite Nat.add_1_r. reflexivity. }
+    rewrite (app_length (l ++ [y])). rewrite app_length. cbn [length]. rewrite !Nat.add_1_r.
+    rewrite decode_loop_SS. cbn [enc_get_max enc].
+    set (k := Z.of_nat (S (S (length l)))).
+    assert (Hk : Z.to_nat k = S (S (length l))) by (unfold k; lia).
+    (* the binary search returns x *)
+    assert (Hgm : cns_get_max idx k top = x).
+    { unfold cns_get_max.
+      pose proof (get_max_spec (fun w => cns_enc w k <=? idx)) as G. cbv zeta in G.
+      destruct (G) with (top := top) (bottom := k - 1) as (A & B & C).
+      - intros w w' Hw E. apply Z.leb_gt in E. apply Z.leb_gt. rewrite !cns_enc_binom in *.
+        pose proof (binom_mono (Z.to_nat w) (Z.to_nat w') (Z.to_nat k) ltac:(lia)). lia.
+      - unfold k. lia.
+      - apply Z.leb_le. rewrite cns_enc_binom, Hk. rewrite binom_gt by (unfold k; lia). lia.
+      - set (r := get_max top (k - 1) (fun w => cns_enc w k <=? idx)) in *.
+        apply Z.leb_le in B. rewrite cns_enc_binom, Hk in B.
+        destruct (Z_lt_le_dec r x) as [Hlt|Hge].
+        + specialize (C x ltac:(lia)). apply Z.leb_gt in C. rewrite cns_enc_binom, Hk in C. lia.
+        + destruct (Z.eq_dec r x) as [E|Hne]; [exact E|]. exfalso.
+          pose proof (binom_mono (S (Z.to_nat x)) (Z.to_nat r) (S (S (length l))) ltac:(lia)). lia. }
+    rewrite Hgm. rewrite cns_enc_binom, Hk.
+    replace (idx - binom (Z.to_nat x) (S (S (length l)))) with (simplex_index Cns (l ++ [y])) by lia.
+    replace (S (length l)) with (length (l ++ [y])) by (rewrite app_length; cbn [length]; lia).
+    rewrite IH; [|exact H1|lia]. rewrite <- !app_assoc. reflexivity.
+Qed.
+
+(* the combinatorial number system: round trip and range, for every simplex on vertices < n *)
+Theorem cns_roundtrip vs n : vs <> [] -> increasing 0 vs -> (forall v, In v vs -> v < n) ->
+  decode Cns (simplex_index Cns vs) (length vs) n = vs /\
+  0 <= simplex_index Cns vs < binom (Z.to_nat n) (length vs).
+Proof.
+  intros Hne Hinc Hlt. destruct (exists_last Hne) as (l & x & ->).
+  assert (Hx : x < n) by (apply Hlt; apply in_or_app; right; left; reflexivity).
+  split.
+  - unfold decode. rewrite decode_loop_cns; [apply app_nil_r|exact Hinc|lia].
+  - pose proof (cns_bound l x Hinc) as Hb. rewrite app_length. cbn [length]. rewrite Nat.add_1_r.
+    pose proof (increasing_snoc_lb l 0 x Hinc).
+    pose proof (binom_mono (S (Z.to_nat x)) (Z.to_nat n) (S (length l)) ltac:(lia)). lia.
+Qed.
+
+(* hence two different simplices of the same dimension have different indices *)
+Theorem cns_injective vs ws n : vs <> [] -> ws <> [] -> increasing 0 vs -> increasing 0 ws ->
+  (forall v, In v vs -> v < n) -> (forall v, In v ws -> v < n) -> length vs = length ws ->
+  simplex_index Cns vs = simplex_index Cns ws -> vs = ws.
+Proof.
+  intros H1 H2 I1 I2 L1 L2 Hl E.
+  destruct (cns_roundtrip vs n H1 I1 L1) as [R1 _]. destruct (cns_roundtrip ws n H2 I2 L2) as [R2 _].
+  rewrite <- R1, <- R2, E, Hl. reflexivity.
+Qed.
